@@ -19,7 +19,10 @@ Record inst := mkInst {
 
 Record sysflush := mkFlush {
   f_gid : nat;                    (* which aggregation group flushed (each has its own marker entry) *)
-  f_now : Z; f_tzt : list (string * Z); f_notified : bool; f_by : list string; f_muted : bool }.
+  f_now : Z; f_tzt : list (string * Z); f_notified : bool; f_by : list string; f_muted : bool;
+  (* GET /api/v2/alerts/groups right after this flush: EVERY listed group of the route with its mutedBy, and
+     the groups listed for ?muted=false (group ids ascending) *)
+  f_api : list (nat * list string); f_api_unmuted : list nat }.
 
 Inductive which_stage := StActive | StMute | StBoth.
 
@@ -82,6 +85,19 @@ Fixpoint sys_model (m : intervals) (mute active : list string) (markers : nat ->
       (p, e, marker_muted mk) :: sys_model m mute active (upd markers (f_gid f) mk) r
   end.
 
+(* what the API must report after each flush, for every group it lists: that group's own marker entry (written at
+   that group's own last flush); ?muted=false lists exactly the groups whose entry is empty *)
+Fixpoint sys_api_model (m : intervals) (mute active : list string) (markers : nat -> option (list string))
+  (fl : list sysflush) : list (list (nat * list string) * list nat) :=
+  match fl with
+  | [] => []
+  | f :: r =>
+      let '(_, _, mk) := time_stages (tz_table (f_tzt f)) m (sys_ctx mute active (f_now f)) (markers (f_gid f)) in
+      let markers' := upd markers (f_gid f) mk in
+      let view := map (fun '(g, _) => (g, fst (marker_muted (markers' g)))) (f_api f) in
+      (view, map fst (List.filter (fun '(_, by_) => beq by_ []) view)) :: sys_api_model m mute active markers' r
+  end.
+
 Definition with_now (x : sctx) (now : Z) : sctx :=
   mkCtx (x_route x) (x_gkey x) (x_mute x) (x_active x) (Some now).
 (* one Exec: observable outcome and the marker value afterwards *)
@@ -134,6 +150,7 @@ Inductive shown :=
 | ShS (o : bool * option string * (list string * bool))
 | ShB (b : bool)
 | ShMs (l : list (res (bool * list string)))
+| ShSysApi (l : list (bool * option string * (list string * bool))) (a : list (list (nat * list string) * list nat))
 | ShSys (l : list (bool * option string * (list string * bool))).
 
 Definition show_case (c : case) : shown :=
@@ -147,7 +164,7 @@ Definition show_case (c : case) : shown :=
   | CMutesSeq m qs => ShMs (map (fun '(names, now, tzt, _) => mutes (tz_table tzt) m names now) qs)
   | CStageSeq w m x mk0 steps => ShSys (stage_seq_model w m x mk0 (map fst steps))
   | CCfg d ru us _ => ShB (cfg_names_ok d ru us)
-  | CSys m mute active fl => ShSys (sys_model m mute active (fun _ => None) fl)
+  | CSys m mute active fl => ShSysApi (sys_model m mute active (fun _ => None) fl) (sys_api_model m mute active (fun _ => None) fl)
   end.
 
 Global Instance res_eq_dec {A} `{EqDecision A} : EqDecision (res A). Proof. solve_decision. Defined.
@@ -166,6 +183,7 @@ Definition check_case (c : case) : bool :=
   | CCfg d ru us acc => beq (cfg_names_ok d ru us) acc
   | CSys m mute active fl =>
       beq (sys_model m mute active (fun _ => None) fl) (map (fun f => (f_notified f, None, (f_by f, f_muted f))) fl)
+      && beq (sys_api_model m mute active (fun _ => None) fl) (map (fun f => (f_api f, f_api_unmuted f)) fl)
   end.
 
 (* calendar sanity of the model's own fields: a valid date that converts back to the same day, weekday in 0..6 *)
